@@ -305,6 +305,8 @@ class PotentialElectrode(BaseElectrode):
         ):
             self.ab_cell_id.entity_type = current_electrodes.ab_cell_id.entity_type
 
+        current_electrodes._potential_electrodes = self
+
     @property
     def potential_electrodes(self):
         """
@@ -386,6 +388,8 @@ class CurrentElectrode(BaseElectrode):
             self.ab_cell_id, ReferencedData
         ):
             potential_electrodes.ab_cell_id.entity_type = self.ab_cell_id.entity_type
+
+        potential_electrodes._current_electrodes = self
 
     def add_default_ab_cell_id(self):
         """
